@@ -66,6 +66,9 @@ func sortedChars(s string) string {
 	return strings.Join(oracle.CharSpec{AllowChars: s}.Alphabet(), "")
 }
 
+// alphabetOf calls Alphabet() on an addressable copy (works for value and pointer receivers).
+func alphabetOf(r spg.CharRecipe) string { return r.Alphabet() }
+
 func o16keys(m map[string]bool) []string {
 	var out []string
 	for k := range m {
@@ -97,18 +100,18 @@ func c16Run(it c16Item) error {
 	switch it.What {
 	case "class":
 		name := []string{"Uppers", "Lowers", "Digits", "Symbols", "Ambiguous"}[it.Arg]
-		got := spg.CharRecipe{Length: 1, Allow: c16Flags[name]}.Alphabet()
+		got := alphabetOf(spg.CharRecipe{Length: 1, Allow: c16Flags[name]})
 		if got != sortedChars(doc[name]) {
 			return fmt.Errorf("class %s is %q, documented %q", name, got, sortedChars(doc[name]))
 		}
 		// the same class through Require and through Exclude
-		got = spg.CharRecipe{Length: 1, Require: c16Flags[name]}.Alphabet()
+		got = alphabetOf(spg.CharRecipe{Length: 1, Require: c16Flags[name]})
 		if got != sortedChars(doc[name]) {
 			return fmt.Errorf("class %s via Require is %q", name, got)
 		}
 		all := doc["Uppers"] + doc["Lowers"] + doc["Digits"] + doc["Symbols"] + doc["Ambiguous"]
 		want := oracle.CharSpec{AllowChars: all, ExcludeChars: doc[name]}.Alphabet()
-		got = spg.CharRecipe{Length: 1, AllowChars: all, Exclude: c16Flags[name]}.Alphabet()
+		got = alphabetOf(spg.CharRecipe{Length: 1, AllowChars: all, Exclude: c16Flags[name]})
 		if got != strings.Join(want, "") {
 			return fmt.Errorf("excluding class %s leaves %q, want %q", name, got, strings.Join(want, ""))
 		}
@@ -124,10 +127,10 @@ func c16Run(it c16Item) error {
 			}
 			seen |= f
 		}
-		if got, want := (spg.CharRecipe{Length: 1, Allow: spg.Letters}).Alphabet(), sortedChars(doc["Uppers"]+doc["Lowers"]); got != want {
+		if got, want := alphabetOf(spg.CharRecipe{Length: 1, Allow: spg.Letters}), sortedChars(doc["Uppers"]+doc["Lowers"]); got != want {
 			return fmt.Errorf("Letters = %q", got)
 		}
-		if got, want := (spg.CharRecipe{Length: 1, Allow: spg.All}).Alphabet(), sortedChars(doc["Uppers"]+doc["Lowers"]+doc["Digits"]+doc["Symbols"]); got != want {
+		if got, want := alphabetOf(spg.CharRecipe{Length: 1, Allow: spg.All}), sortedChars(doc["Uppers"]+doc["Lowers"]+doc["Digits"]+doc["Symbols"]); got != want {
 			return fmt.Errorf("All = %q, want %q", got, want)
 		}
 	case "defaults":
